@@ -16,6 +16,7 @@ RULE = ("series on G(7,k), k=2..5, with abscissa offsets {0, 2, -3.5} and scales
 ASSUMPTIONS = ["trend callables are pure scalar functions; 'exact' = the same IEEE expression evaluated independently "
                "(bit-equal) for shift/scale/trend, 1e-12 relative for normalise"]
 ANCHORS = {"process.py": [(149, 157), (386, 389)], "weaver.py": [(753, 837)]}
+FORMS_HARNESSES = "all"
 EXPLANATION = "pointwise definitions evaluated on every element of a bounded lattice"
 
 TRENDS = {"zero": lambda t: 0.0, "one": lambda t: 1.0, "t": lambda t: t, "t2": lambda t: t * t, "1-2t": lambda t: 1 - 2 * t,
@@ -252,7 +253,7 @@ def harnesses(tier, seed):
         judge(ctx, check_pointwise_in_state, {"init": ii, "ops": [list(o) for o in ops]}, calls=12,
               nontrivial=lambda sg: sg[0] != "skipped")
 
-    long_sizes = A.sizes(40 if quick else 130, 3300 if quick else 140000, minimum=2)
+    long_sizes = A.sizes(40 if quick else 130, 17000 if quick else 140000, minimum=2)
     whats = ([("trend", f, None, nm, p_) for f in ("t", "sin") for nm in (False, True) for p_ in ("process", "weaver")]
              + [("trend", "t", "t2", True, "process")]
              + [("shiftscale", op, v) for op, v in (("shift_x", 1.5), ("shift_y", -2.5), ("scale_x", 0.5), ("scale_x", -2.0), ("scale_y", 3.0))]
